@@ -5,10 +5,12 @@
 //! each the list of indexed surfaces as UTF-8 hex; `ck_variant` = which `Ordering::Equal` arm of
 //! `NonBreakChecker::has_non_break_word` the tree has, found by probing its source: `fix` when the
 //! arm slices the matched word `input[i..end_byte]` (repair of D12), `cur` otherwise).
-//! Answer: `ok eos=<get_eos of the whole text> ranges=<b:e,b:e,...> steps=<rv,rv,...>` (byte ranges of
+//! Answer: `ok eos=<get_eos of the whole text> ranges=<b:e,b:e,...> steps=<rv,rv,...> suf=<rv,rv,...>` (byte ranges of
 //! the iterator; `steps` = the value of `get_eos` on `text[b..]` for the start `b` of every sentence, i.e.
 //! what each call of `SentenceIter::next` saw, the negative provisional boundary of the last call
-//! included; `-` when the iteration itself panicked or did not stop).
+//! included; `-` when the iteration itself panicked or did not stop; `suf` = the value of `get_eos` on `text[b..]` for the
+//! first 40 character boundaries `b` of the text (8 when the text has more than 200 characters), the end of the text
+//! included when it is among them: every alignment of the 30-byte look-back / of the window against the characters).
 use crate::common::*;
 use crate::dict;
 use sudachi::dic::dictionary::JapaneseDictionary;
@@ -165,7 +167,7 @@ fn build_dic(rng: &mut Rng, tag: &str, kind: usize) -> Result<Dic, String> {
     let mut users: Vec<Vec<u8>> = vec![];
     if with_user {
         let sysdic = dict::load(&cfg, sys.clone(), vec![])?;
-        let nuser = rng.range(1, 2);
+        let nuser = if kind == 22 { 14 } else if kind == 18 { 6 } else { rng.range(1, 2) };
         for _ in 0..nuser {
             let (ut, un) = (rng.chance(1, 3), rng.range(1, 4));
             let uw = gen_words(rng, ut, un);
@@ -189,10 +191,18 @@ const N_DICS: usize = 24;
 const TERMS: &[&str] = &["。", "？", "！", "♪", "…", "?", "!", ".", "．", "・", "・・・", "・・・・", "。。", "!?", "．．"];
 const BRACKETS: &[&str] = &["(", ")", "（", "）", "「", "」", "『", "』", "[", "]", "{", "}", "｛", "｝", "【", "】", "“", "”", "≪", "≫", "〔", "〕", "［", "］"];
 const COMMA_TOK: &[&str] = &[",", "，", "、"];
-const ANS: &[&str] = &["a", "Z", "1", "９", "一", "十", "ａ", "Ｚ", "0", "兆", "3.14", "a.b", "1.", "(a)", "a．", "２．"];
+const ANS: &[&str] = &["a", "Z", "1", "９", "一", "十", "ａ", "Ｚ", "0", "兆", "3.14", "a.b", "1.", "(a)", "a．", "２．",
+    // first / last element of every range of ALPHABET_OR_NUMBER, every listed numeral, and the code points just outside the
+    // ranges — each directly before and after a period (the look-behind / look-ahead of the period alternative)
+    "z.", ".z", "A.", ".A", "9.", ".9", "ｚ．", "．ｚ", "Ａ．", "．Ａ", "０．", "．０", "〇.", ".〇", "二.", "三.", "四.", "五.", "六.", "七.", "八.", "九.",
+    "百.", "千.", "万.", "億.", ".億", "兆．", "`.", ".`", "{.", "@.", ".@", "/.", "./", ":.", ".:", "｀．", "．｀", "＠．", "．＠", "／．", "：．", "．：",
+    "零.", ".零", "壱.", "〆.", ".々", "丁."];
 const KANA: &[&str] = &["あ", "い", "う", "ア", "𠮷", "é", "漢", "\\", "^", "-", "|", "$", "*", "+", "&", "~", "#", "\"", "'", "/", "C:\\temp", "\\n", "a-z", "＼", "¥"];
 const PARTICLES: &[&str] = &["と", "って", "っ", "です", "で", "や", "の", "という"];
-const SPACES: &[&str] = &[" ", "\u{3000}", "\n", "\t", "  ", "\u{85}", "\u{a0}", "\r\n", "\u{2028}", "\u{200b}"];
+const SPACES: &[&str] = &[" ", "\u{3000}", "\n", "\t", "  ", "\u{85}", "\u{a0}", "\r\n", "\u{2028}", "\u{200b}",
+    // the other members of White_Space (what `\s` is) and their neighbours that are NOT white space
+    "\u{b}", "\u{c}", "\r", "\u{1680}", "\u{2000}", "\u{200a}", "\u{2029}", "\u{202f}", "\u{205f}",
+    "\u{8}", "\u{e}", "\u{1c}", "\u{1f}", "\u{84}", "\u{86}", "\u{9f}", "\u{a1}", "\u{180e}", "\u{1fff}", "\u{200c}", "\u{2027}", "\u{202a}", "\u{2030}", "\u{2060}", "\u{2fff}", "\u{3001}", "\u{feff}"];
 const TAGS: &[&str] = &["<br>", "<BR>", "<br><br>", "<BR><br>", "<br><BR><br>", "<Br>", "<br", "<", "br>"];
 
 fn gen_text(rng: &mut Rng, words: &[String], max_tokens: usize) -> String {
@@ -300,7 +310,78 @@ fn directed() -> Vec<(String, usize, Option<Vec<&'static str>>)> {
     v.push((format!("{}Yahoo!ニュースです。", "ア".repeat(4090)), 4096, Some(vec!["Yahoo!ニュース"])));
     v.push((format!("{}ばな。なです。", "𠮷".repeat(4093)), 4096, Some(vec!["な。な", "。"])));
     v.push((format!("{}ばな。なです。", "あ".repeat(4093)), 4096, None));
+    // limits at the far end, and texts of exactly limit / limit + 1 characters (`s.len() < input.len()`)
+    v.push(("あ。い。".to_string(), usize::MAX, None));
+    v.push(("あ。い。".to_string(), usize::MAX, Some(vec!["。", "あ。い"])));
+    v.push(("あいう".to_string(), usize::MAX, None));
+    v.push((format!("{}。", "あ".repeat(4095)), 4096, None));
+    v.push((format!("{}。い", "あ".repeat(4095)), 4096, None));
+    v.push((format!("{} い", "あ".repeat(4094)), 4096, None));
+    v.push((format!("{} いう", "あ".repeat(4094)), 4096, None));
+    v.push((format!("{}\u{2029}いう", "あ".repeat(4095)), 4096, None));
+    // The byte look-back at its boundary for every encoding width: the word starts exactly 30 bytes (seen) / 31 bytes (not
+    // seen, D12b) before the candidate; a prefix character puts `eos - 30` INSIDE a 2-, 3- or 4-byte character.
+    for (pre, w) in lookback_boundary_words() {
+        let lw: &'static str = Box::leak(w.clone().into_boxed_str());
+        v.push((format!("{}{}い。", pre, w), 4096, Some(vec![lw])));
+    }
     v
+}
+
+/// (prefix, dictionary word ending with / containing a terminator): byte distance word start -> candidate 29, 30, 31 for 1-, 2-,
+/// 3- and 4-byte characters, and prefixes after which the look-back starts at byte 1, 2 or 3 of a multi-byte character
+fn lookback_boundary_words() -> Vec<(String, String)> {
+    let mut v: Vec<(String, String)> = vec![];
+    // 1-byte characters
+    for n in [28usize, 29, 30] { v.push(("".into(), format!("{}!", "w".repeat(n)))); }
+    // 2-byte characters: é×14 + ! = 29, é×14 + a! = 30, é×15 + ! = 31
+    v.push(("".into(), format!("{}!", "é".repeat(14))));
+    v.push(("".into(), format!("{}a!", "é".repeat(14))));
+    v.push(("".into(), format!("{}!", "é".repeat(15))));
+    v.push(("é".into(), format!("{}!", "é".repeat(14))));        // eos 31: look-back starts at byte 1 of the prefix é
+    v.push(("é".into(), format!("{}a!", "é".repeat(14))));       // eos 32: starts exactly at the word
+    // 3-byte characters: あ×9 + 。 = 30 is in dict_cases; あ×9 + !: 28, あ×9 + a!: 29, あ×9 + abc!: 31
+    v.push(("".into(), format!("{}a!", "あ".repeat(9))));
+    v.push(("".into(), format!("{}abc!", "あ".repeat(9))));
+    v.push(("あ".into(), format!("{}abc!", "あ".repeat(8))));    // eos 31: byte 1 of the prefix あ
+    v.push(("あ".into(), format!("{}abcd!", "あ".repeat(8))));   // eos 32: byte 2 of the prefix あ
+    v.push(("あ".into(), format!("{}。", "あ".repeat(9))));      // eos 33: exactly at the word
+    // 4-byte characters: 𠮷×7 + ! = 29, 𠮷×7 + a! = 30, 𠮷×7 + 。 = 31
+    v.push(("".into(), format!("{}!", "𠮷".repeat(7))));
+    v.push(("".into(), format!("{}a!", "𠮷".repeat(7))));
+    v.push(("".into(), format!("{}。", "𠮷".repeat(7))));
+    v.push(("𠮷".into(), format!("{}!", "𠮷".repeat(7))));      // eos 33: byte 3 of the prefix 𠮷
+    v.push(("𠮷".into(), format!("{}x", "𠮷".repeat(6)) + "!"));   // eos 30: starts at byte 0
+    v.push(("𠮷".into(), format!("{}xy", "𠮷".repeat(6)) + "!"));  // eos 31: byte 1 of the prefix 𠮷
+    v.push(("𠮷".into(), format!("{}xyz", "𠮷".repeat(6)) + "!")); // eos 32: byte 2 of the prefix 𠮷
+    // words that CONTAIN the terminator at that distance and go on
+    v.push(("".into(), format!("{}!ww", "w".repeat(29))));
+    v.push(("é".into(), format!("{}!é", "é".repeat(14))));
+    v.push(("𠮷".into(), format!("{}!𠮷", "𠮷".repeat(7))));
+    v.push(("".into(), format!("{}!ww", "w".repeat(30))));         // 31: not seen, break inside the word (D12b)
+    v
+}
+
+/// A dictionary word of filler characters of UTF-8 width `fw` (padded with 1-byte characters where the width does not divide)
+/// whose terminator ends `d` bytes after the start of the word; `cont` = the word goes on behind the terminator.
+fn gen_lookback_word(rng: &mut Rng, fw: usize, d: usize, cont: bool) -> String {
+    const F1: &[&str] = &["w", "k", "x"];
+    const F2: &[&str] = &["é", "я", "ü"];
+    const F3: &[&str] = &["あ", "漢", "ア"];
+    const F4: &[&str] = &["𠮷", "😀"];
+    const T1: &[&str] = &["!", "?"];
+    const T3: &[&str] = &["。", "！", "？", "♪", "…"];
+    let term: &str = if d >= 6 && rng.chance(1, 2) { *rng.pick(T3) } else { *rng.pick(T1) };
+    let mut body = d - term.len();
+    let pool: &[&str] = match fw { 1 => F1, 2 => F2, 3 => F3, _ => F4 };
+    let mut parts: Vec<&str> = vec![];
+    while body >= fw { parts.push(*rng.pick(pool)); body -= fw; }
+    // the remainder in 1-byte characters, put at a random place (moves the character boundaries inside the word)
+    for _ in 0..body { let at = rng.below(parts.len() + 1); parts.insert(at, *rng.pick(F1)); }
+    let mut w: String = parts.concat();
+    w.push_str(term);
+    if cont { for _ in 0..rng.range(1, 2) { w.push_str(*rng.pick(pool)); } }
+    w
 }
 
 /// characters of the oracle's terminator classes (for the window-edge generator)
@@ -355,6 +436,7 @@ struct Observed {
     eos: String,
     ranges: Result<Vec<(usize, usize, String)>, String>, // Err = PANIC / NONTERMINATION
     steps: String,
+    suf: String,
 }
 
 fn observe(text: &str, limit: usize, dic: Option<&Dic>) -> Observed {
@@ -416,7 +498,29 @@ fn observe(text: &str, limit: usize, dic: Option<&Dic>) -> Observed {
             }
         }).collect::<Vec<_>>().join(","),
     };
-    Observed { eos, ranges, steps }
+    // get_eos on the suffix at each of the first character boundaries
+    let nchars = text.chars().count();
+    let nsuf = if nchars > 200 { 8 } else { 40 };
+    let mut bounds: Vec<usize> = text.char_indices().map(|(i, _)| i).collect();
+    bounds.push(text.len());
+    let suf = bounds.iter().take(nsuf).map(|b| {
+        let r = catch(|| {
+            let det = SentenceDetector::with_limit(limit);
+            match dic {
+                Some(d) => {
+                    let ck = NonBreakChecker::new(d.dic.lexicon());
+                    det.get_eos(&text[*b..], Some(&ck))
+                }
+                None => det.get_eos(&text[*b..], None),
+            }
+        });
+        match r {
+            Err(_) => "PANIC".to_string(),
+            Ok(Err(_)) => "err".to_string(),
+            Ok(Ok(v)) => v.to_string(),
+        }
+    }).collect::<Vec<_>>().join(",");
+    Observed { eos, ranges, steps, suf }
 }
 
 // ---------------------------------------------------------------------------------------------
@@ -558,7 +662,8 @@ fn oracle(text: &str, limit: usize, keys: Option<&Vec<Vec<char>>>, obs: &Observe
 // ---------------------------------------------------------------------------------------------
 pub fn run(run: &mut Run) {
     run.rule = "texts over terminators (。？！♪…?!.．・), brackets, commas, digits/letters with periods, itemise headers, quote particles, \
-<br> tags, white space incl. newlines, 1-4 byte characters and dictionary words; limits 1..8 and 4096 (plus texts longer than 4096); window-edge cases (the last character of the window is a terminator inside / at the end of a dictionary word, small windows and 4096); \
+<br> tags, white space incl. newlines, 1-4 byte characters and dictionary words; limits 1..8 and 4096 (plus texts longer than 4096); look-back boundary cases (a dictionary word \
+whose terminator ends 26..35 bytes after its start, in 1-, 2-, 3-, 4-byte characters, after prefixes that put eos-30 on byte 0..3 of a character; dictionary built per case); window-edge cases (the last character of the window is a terminator inside / at the end of a dictionary word, small windows and 4096); \
 no checker / system dictionary / system+user dictionaries, with and without one-character terminator entries; \
 non-trivial = at least two sentences or a vetoed terminator; distinct by limit+dictionary+text".into();
     let n = run.opts.count;
@@ -578,6 +683,7 @@ non-trivial = at least two sentences or a vetoed terminator; distinct by limit+d
         if !run.wants(idx) { continue; }
         let mut rng = Rng::for_case(run.opts.seed, idx);
         let own: Option<Dic>;
+        let mut lb_eos: Option<usize> = None;
         let (text, limit, dic): (String, usize, Option<&Dic>) = if idx < dir.len() {
             let (t, l, ws) = &dir[idx];
             own = match ws {
@@ -588,6 +694,44 @@ non-trivial = at least two sentences or a vetoed terminator; distinct by limit+d
                 None => None,
             };
             (t.clone(), *l, own.as_ref())
+        } else if idx % 11 == 5 {
+            // The byte look-back at its boundary: a dictionary word whose terminator ends d = 26..35 bytes after the start
+            // of the word (30 = the last distance at which the checker finds the word), in 1-, 2-, 3- or 4-byte
+            // characters (padded with 1-byte ones), after a prefix of mixed widths so that `eos - 30` falls on byte
+            // 0..3 of a character; the dictionary is built for the case.
+            let fw = 1 + rng.below(4);
+            let d = 26 + rng.below(10);
+            let cont = rng.chance(1, 3);
+            let w = gen_lookback_word(&mut rng, fw, d, cont);
+            const PRE: &[&str] = &["", "", "é", "あ", "𠮷", "w", "éw", "あé", "𠮷あ", "w𠮷", "ア𠮷é", "𠮷𠮷"];
+            let pre: &str = *rng.pick(PRE);
+            let mut extra: Vec<String> = vec![w.clone()];
+            if rng.chance(1, 3) { extra.push(rng.pick(TERM_WORDS).to_string()); }
+            if rng.chance(1, 3) { extra.push("い".to_string()); }
+            let tail = gen_text(&mut rng, &extra, 6);
+            let text = if cont || rng.chance(1, 2) { format!("{}{}{}", pre, w, tail) } else { format!("{}{}い{}", pre, w, tail) };
+            let refs: Vec<&str> = extra.iter().map(|s| s.as_str()).collect();
+            own = match build_directed_dic(&refs, &format!("c16-lb-{}", idx)) {
+                Ok(d) => Some(d),
+                Err(e) => { run.bump(&format!("dict-build-failed:{}", e.chars().take(60).collect::<String>())); None }
+            };
+            let eos = pre.len() + d;
+            lb_eos = Some(eos);
+            run.bump(&format!("lookback:distance-bytes={}{}", d, if d <= 30 { "" } else { "(beyond)" }));
+            run.bump(&format!("lookback:filler-width={}", fw));
+            run.bump(if cont { "lookback:word-contains-terminator" } else { "lookback:word-ends-with-terminator" });
+            if eos >= 30 {
+                let st = eos - 30;
+                let mut off = 0;
+                while !text.is_char_boundary(st - off) { off += 1; }
+                run.bump(&format!("lookback:start-at-byte-{}-of-a-{}-byte-char", off,
+                    text[st - off..].chars().next().map_or(0, |c| c.len_utf8())));
+            } else {
+                run.bump("lookback:start-clamped-to-0");
+            }
+            let chars_to_eos = text[..eos].chars().count();
+            let limit = match rng.below(5) { 0 => chars_to_eos, 1 => chars_to_eos + 1, 2 => 40, _ => 4096 };
+            (text, limit, own.as_ref())
         } else {
             // window-edge cases: every 7th case with a small window, every 151st with the default one
             let edge_small = idx % 7 == 3;
@@ -636,7 +780,7 @@ non-trivial = at least two sentences or a vetoed terminator; distinct by limit+d
             Ok(r) => r.iter().map(|(b, e, _)| format!("{}:{}", b, e)).collect::<Vec<_>>().join(","),
             Err(e) => e.clone(),
         };
-        let answer = format!("ok eos={} ranges={} steps={}", obs.eos, ranges_s, obs.steps);
+        let answer = format!("ok eos={} ranges={} steps={} suf={}", obs.eos, ranges_s, obs.steps, obs.suf);
         let keys: Option<Vec<Vec<char>>> = dic.map(|d| d.lexs.iter().flatten().map(|w| w.chars().collect()).collect());
         let verdict = if limit == 0 {
             run.bump("limit:0-outside-the-property-correspondence-only");
@@ -648,11 +792,22 @@ non-trivial = at least two sentences or a vetoed terminator; distinct by limit+d
         let nontrivial = nsent >= 2 || !verdict.notes.is_empty();
         run.case(idx, "split", &payload, &answer, nontrivial);
         // distribution
-        run.bump(if limit == 4096 { "limit:4096" } else if limit == 0 { "limit:0" } else { "limit:1-8" });
+        run.bump(if limit == 4096 { "limit:4096" } else if limit == 0 { "limit:0" } else if limit <= 8 { "limit:1-8" } else if limit < 4096 { "limit:9-4095" } else { "limit:above-4096" });
+        if let Some(d) = dic { run.bump(&format!("lexicons:{}", d.lexs.len())); }
+        {
+            // which code-point widths the text has, and which kinds of white space (members / non-members of White_Space)
+            let mut ws = [false; 5];
+            for c in text.chars() { ws[c.len_utf8()] = true; }
+            for k in 1..5 { if ws[k] { run.bump(&format!("text-has-{}-byte-characters", k)); } }
+            if text.chars().any(|c| c.is_whitespace() && !" \u{3000}\n\t\u{85}\u{a0}\r\u{2028}".contains(c)) { run.bump("text-has-rare-white-space"); }
+        }
         run.bump(match dic { None => "checker:none", Some(d) if d.lexs.len() > 1 => "checker:system+user", Some(_) => "checker:system" });
         run.bump(&format!("sentences:{}", if nsent >= 5 { "5+".to_string() } else { nsent.to_string() }));
         if obs.eos.starts_with('-') { run.bump("get_eos:negative"); }
         if text.chars().count() > limit { run.bump("text-longer-than-window"); }
+        if let (Some(eos), Ok(r)) = (lb_eos, &obs.ranges) {
+            run.bump(if r.iter().any(|(_, e, _)| *e == eos) { "lookback:break-at-the-word-terminator" } else { "lookback:no-break-at-the-word-terminator" });
+        }
         let mut seen = std::collections::BTreeSet::new();
         for nt in &verdict.notes { if seen.insert(*nt) { run.bump(nt); } }
         for (key, what) in &verdict.fails {
